@@ -64,6 +64,7 @@ func GetReplayCache(d time.Duration) *Cache {
 
 // AddEntry adds an entry to the Cache.
 func (c *Cache) AddEntry(sname types.PrincipalName, a types.Authenticator) {
+	verifYield("AddEntry.lock")
 	c.mux.Lock()
 	defer c.mux.Unlock()
 	c.addEntry(sname, a)
@@ -91,6 +92,7 @@ func (c *Cache) addEntry(sname types.PrincipalName, a types.Authenticator) {
 // ClearOldEntries clears entries from the Cache whose client time is older than the duration provided.
 // An entry has to be kept for as long as its authenticator could still pass the clock skew check.
 func (c *Cache) ClearOldEntries(d time.Duration) {
+	verifYield("ClearOldEntries.lock")
 	c.mux.Lock()
 	defer c.mux.Unlock()
 	for ke, ce := range c.entries {
@@ -109,6 +111,7 @@ func (c *Cache) ClearOldEntries(d time.Duration) {
 // The test and the addition are performed as one atomic operation.
 func (c *Cache) IsReplay(sname types.PrincipalName, a types.Authenticator) bool {
 	ct := a.CTime.Add(time.Duration(a.Cusec) * time.Microsecond)
+	verifYield("IsReplay.lock")
 	c.mux.Lock()
 	defer c.mux.Unlock()
 	if ce, ok := c.entries[clientKey(a)]; ok {
